@@ -56,8 +56,24 @@ class FreshMonitor(Monitor):
     prop = "C11"
     name = "fresh"
 
+    def component_values(self) -> dict:
+        """Values of the source / detector each Sampler carries."""
+        w = self.w
+        out = {}
+        for sid, s in w.pool["sam"].items():
+            try:
+                src, det = s.source, s.detector
+                out[sid] = ((id(src), src.brightness, src.purity,
+                             src.indistinguishability, src.probability_threshold),
+                            (id(det), det.efficiency, det.p_dark,
+                             det.photon_counting))
+            except Exception:  # noqa: BLE001
+                pass
+        return out
+
     def pre(self, op, snap):
         self._settings = None
+        self._components = self.component_values()
         w = self.w
         if op["op"] == "cons_set" and w.has(op.get("kind"), op.get("s")):
             self._settings = settings_of(op["kind"], w.pool[op["kind"]][op["s"]])
@@ -83,9 +99,57 @@ class FreshMonitor(Monitor):
         a.post_selection = s.post_selection
         return a
 
+    def leak_check(self, op, out):
+        """No operation changes the source / detector settings of a Sampler it
+        does not address: edits reach a consumer only through objects it was
+        given (harness-tracked), never through hidden sharing."""
+        w = self.w
+        k = op["op"]
+        now = self.component_values()
+        touched_src = touched_det = None
+        if k == "src_set":
+            touched_src = op.get("src")
+        if k == "det_set":
+            touched_det = op.get("det")
+        for sid, old in self._components.items():
+            new = now.get(sid)
+            if new is None or new == old:
+                continue
+            meta = w.meta["sam"][sid]
+            if k in ("cons_set", "cons_component_set", "new_sampler") and op.get("s", op.get("out")) == sid:
+                continue
+            if k == "cons_component_set":
+                # the edited consumer shares this component by assignment?
+                other = w.meta["sam"].get(op.get("s"), {})
+                key = "src" if op["comp"] == "source" else "det"
+                if other.get(key) is not None and other.get(key) == meta.get(key):
+                    continue
+            if touched_src is not None and meta.get("src") == touched_src and new[1] == old[1]:
+                continue
+            if touched_det is not None and meta.get("det") == touched_det and new[0] == old[0]:
+                continue
+            if touched_src is not None and meta.get("src") == touched_src and \
+                    touched_det is None and new[1] == old[1]:
+                continue
+            what = "source" if new[0] != old[0] else "detector"
+            held = meta.get("src" if what == "source" else "det")
+            if k == "src_set" and what == "source" and held == touched_src:
+                continue
+            if k == "det_set" and what == "detector" and held == touched_det:
+                continue
+            w.probe("settings_leak_found")
+            return [self.v({"kind": "settings_changed_by_unrelated_operation",
+                            "op": k, "what": what},
+                           f"sam:{sid}: its {what} settings changed during {k} "
+                           "on an object it was never given")]
+        return []
+
     def post(self, op, out, before, after):
         k = op["op"]
         w = self.w
+        lv = self.leak_check(op, out)
+        if lv:
+            return lv
         if k == "cons_set" and out["status"] == "raised" and \
                 self._settings is not None and w.has(op["kind"], op["s"]):
             w.probe("rejected_reconfiguration_checked")
